@@ -643,6 +643,21 @@ func runC05Case(c *fw.Ctx, id string, cfg c05Config, seed int64, opsPer int) {
 			c.Violate(id, f, fmt.Sprintf("server %s conn %d could not decode what the client wrote: %s [%s]", e.Server, e.Conn, e.Info, cfg), cfg)
 		}
 	}
+	// the connection header of every connection the client opened
+	for _, e := range cl.Log.Snapshot() {
+		if e.Kind != "hello" {
+			continue
+		}
+		c.Count("connection_headers_checked", 1)
+		wantComp := "compressor="
+		if cfg.Codec == "snappy" {
+			wantComp = "compressor=org.apache.hadoop.io.compress.SnappyCodec"
+		}
+		if !strings.Contains(e.Info, "service=ClientService ") || !strings.Contains(e.Info, "user=root ") ||
+			!strings.Contains(e.Info, "codec=org.apache.hadoop.hbase.codec.KeyValueCodec ") || !strings.HasSuffix(e.Info, wantComp) {
+			c.Violate(id, "wire:connection-header", fmt.Sprintf("connection header %q does not announce service ClientService, user root, the KeyValue codec and %q [%s]", e.Info, wantComp, cfg), cfg)
+		}
+	}
 	if stuck {
 		c.Violate(id, "wire:senders-stuck", "senders did not finish in 120s: "+cfg.String(), cfg)
 		return
@@ -720,7 +735,7 @@ func init() {
 		Floors: func(tier string) map[string]int64 {
 			return map[string]int64{"calls_checked": 5000, "calls_get": 500, "calls_put": 300, "calls_delete": 100, "calls_delete1": 100,
 				"calls_append": 100, "calls_increment": 100, "calls_scan": 100, "frames_decoded": 3000, "cases_concurrent_wrapped": 10,
-				"cases_snappy": 10, "cases_big_payload": 4}
+				"cases_snappy": 10, "cases_big_payload": 4, "connection_headers_checked": 100}
 		},
 		Run: runC05,
 	})
